@@ -76,7 +76,7 @@ bool plan_from_text(const std::string &text, Plan &p) {
 struct LaneDef { const char *name; const char *prop; };
 static const LaneDef kLanes[] = {
     {"array", "C01"}, {"tree", "C02"}, {"names", "C03"}, {"delete", "C04"}, {"reject", "C08"}, {"modes", "C09"},
-    {"durable", "C11"}, {"ids", "C12"}, {"dims", "C13"}, {"props", "C14"}, {"frame", "C15"}, {"abuse", "C16"},
+    {"version", "C10"}, {"durable", "C11"}, {"xkill", "C11"}, {"ids", "C12"}, {"dims", "C13"}, {"props", "C14"}, {"frame", "C15"}, {"abuse", "C16"},
 };
 bool lane_known(const std::string &l) { for (auto &d : kLanes) if (l == d.name) return true; return false; }
 const char *lane_property(const std::string &l) { for (auto &d : kLanes) if (l == d.name) return d.prop; return "?"; }
@@ -125,9 +125,10 @@ static std::vector<int> lane_weights(const std::string &lane, Rng &r) {
     } else if (lane == "reject") {
         w_set(w, create_core, 9); w_set(w, links, 6); w_set(w, attrs, 5); w_set(w, props, 6); w_set(w, arrdata, 5); w_set(w, dimops, 7); w_set(w, frameops, 4); w_set(w, deletes, 2);
         w[OP_reopen] = 5;
-    } else if (lane == "modes") {
+    } else if (lane == "modes" || lane == "version") {
         w_set(w, links, 4); w_set(w, attrs, 3); w_set(w, props, 4); w_set(w, arrdata, 3); w_set(w, dimops, 4); w_set(w, frameops, 3); w_set(w, deletes, 1);
-        w[OP_reopen] = 14;
+        w[OP_reopen] = 8;
+        if (lane == "modes") { w[OP_ro_catalogue] = 8; w[OP_mode_probe] = 14; }
     } else if (lane == "ids") {
         w_set(w, create_core, 12); w[OP_prop_create] = 10; w[OP_feat_create] = 8; w[OP_reopen] = 10; w[OP_clock] = 10; w[OP_force_id] = 3; w_set(w, deletes, 3);
     } else if (lane == "dims") {
@@ -149,7 +150,7 @@ static std::vector<int> lane_weights(const std::string &lane, Rng &r) {
     // swarm: switch a random third of the non-essential kinds off, boost a few
     for (int k = 0; k < OP_COUNT; k++) {
         if (w[(size_t) k] == 0) continue;
-        bool essential = k == OP_create_block || k == OP_reopen || k == OP_create_array || k == OP_create_section || k == OP_create_frame;
+        bool essential = k == OP_create_block || k == OP_reopen || k == OP_create_array || k == OP_create_section || k == OP_create_frame || k == OP_ro_catalogue || k == OP_mode_probe;
         if (!essential && r.chance(1, 4)) w[(size_t) k] = 0;
         else if (r.chance(1, 6)) w[(size_t) k] *= 3;
     }
@@ -186,6 +187,20 @@ Plan generate_plan(const std::string &lane, uint64_t seed, int tier) {
         op.s = ns < 3 ? "" : ns < 6 ? "a/b" : kNamePool[r.below((uint64_t) s.name_pool)];
         return op;
     };
+    if (lane == "ids" || lane == "xkill") {
+        // schedule of steps of real processes: a[0] process, a[1] action, a[2] clock step, a[3] argument
+        s.nops = r.range(6, tier ? 60 : 30);
+        for (int i = 0; i < s.nops; i++) {
+            Op op = mk(OP_xp);
+            static const int acts_ids[] = {0, 1, 2, 3, 3, 3, 3, 4, 5, 3};
+            static const int acts_kill[] = {0, 1, 3, 3, 3, 6, 6, 4, 3, 2};
+            op.a[1] = lane == "ids" ? acts_ids[r.below(10)] : acts_kill[r.below(10)];
+            if (i < 3) op.a[1] = r.chance(1, 3) ? 1 : 0;   // start by opening files
+            op.s = "%";
+            p.ops.push_back(op);
+        }
+        return p;
+    }
     p.ops.push_back(mk(OP_create_block));
     p.ops.back().s = "a";
     int pending_ro = 0;     // ops left in a read-only session before the plan reopens RW
@@ -204,6 +219,8 @@ Plan generate_plan(const std::string &lane, uint64_t seed, int tier) {
         }
         p.ops.push_back(op);
     }
+    if (lane == "modes") p.ops.push_back(mk(OP_ro_catalogue));
+    if (lane == "version") p.ops.push_back(mk(OP_version_cube));
     // every plan ends with a strict restart: close, snapshot to a new inode, reopen read-only
     Op fin = mk(OP_reopen); fin.a[0] = 1; fin.a[1] = 1;
     p.ops.push_back(fin);
